@@ -61,12 +61,12 @@ Proof.
     + apply IH; assumption.
 Qed.
 
-Theorem consistency_proof_ok t i j : Inv H t -> i <= j -> 1 <= j -> j <= size t ->
+Theorem consistency_proof_ok t i j : Inv H t -> 1 <= i -> i <= j -> j <= size t ->
   consistency_proof t i j = Ok (cons_ref (payloads t) (height_of j) i j []).
 Proof.
-  intros I Li L1 Lj. unfold consistency_proof.
-  destruct (N.ltb_spec j i); [lia|]. destruct (N.ltb_spec (size t) j); [lia|].
-  destruct (N.eqb_spec j 0); [lia|]. apply consistency_loop_ok; assumption.
+  intros I L1 Li Lj. unfold consistency_proof.
+  destruct (N.eqb_spec i 0); [lia|]. destruct (N.ltb_spec j i); [lia|]. cbn [orb].
+  destruct (N.ltb_spec (size t) j); [lia|]. apply consistency_loop_ok; [assumption | lia | assumption].
 Qed.
 
 (* ---- for i < j: seed and sibling path ---- *)
